@@ -209,7 +209,7 @@ def gen(rng, tier):
 
     for bits in WIDTHS:
         # ---- float -> Uint, f64
-        pats = f64_patterns(rng, bits, nr)
+        pats = f64_patterns(rng, bits, 400 if quick else nr)
         modulus = mk64(1023 + bits, 0) if bits <= 1023 else mk64(0x7ff, 0)
         for p in pats:
             for s in (0, 1):
@@ -233,7 +233,7 @@ def gen(rng, tier):
                               + hw('hw_abs64 0 %x' % x) + hw('hw_isnormal64 0 %x' % x)):
                         yield l
         # ---- float -> Uint, f32
-        for p in f32_patterns(rng, bits, nr // 2):
+        for p in f32_patterns(rng, bits, 150 if quick else nr // 2):
             for s in (0, 1):
                 x = p | (s << 31)
                 if s == 1 and rng.random() < 0.6 and quick:
